@@ -13,6 +13,7 @@ from typing import (
     List,
     Optional,
     Sequence,
+    Set,
     Tuple,
     Type,
     Union,
@@ -741,6 +742,7 @@ class PDFDocument:
         self._parser = None
         self._cached_objs: Dict[int, Tuple[object, int]] = {}
         self._parsed_objs: Dict[int, Tuple[List[object], int]] = {}
+        self._objs_in_progress: Set[int] = set()
         self._parser = parser
         self._parser.set_document(self)
         self.is_printable = self.is_modifiable = self.is_extractable = True
@@ -880,27 +882,36 @@ class PDFDocument:
         if objid in self._cached_objs:
             (obj, genno) = self._cached_objs[objid]
         else:
-            for xref in self.xrefs:
-                try:
-                    (strmid, index, genno) = xref.get_pos(objid)
-                except KeyError:
-                    continue
-                try:
-                    if strmid is not None:
-                        stream = stream_value(self.getobj(strmid))
-                        obj = self._getobj_objstm(stream, index, objid)
-                    else:
-                        obj = self._getobj_parse(index, objid)
-                        if self.decipher:
-                            obj = decipher_all(self.decipher, objid, genno, obj)
-
-                    if isinstance(obj, PDFStream):
-                        obj.set_objid(objid, genno)
-                    break
-                except (PSEOF, PDFSyntaxError):
-                    continue
-            else:
+            if objid in self._objs_in_progress:
+                # Reading the object needs the object itself: a stream whose
+                # /Length refers to the stream, an object stream that is
+                # stored in itself, ...
                 raise PDFObjectNotFound(objid)
+            self._objs_in_progress.add(objid)
+            try:
+                for xref in self.xrefs:
+                    try:
+                        (strmid, index, genno) = xref.get_pos(objid)
+                    except KeyError:
+                        continue
+                    try:
+                        if strmid is not None:
+                            stream = stream_value(self.getobj(strmid))
+                            obj = self._getobj_objstm(stream, index, objid)
+                        else:
+                            obj = self._getobj_parse(index, objid)
+                            if self.decipher:
+                                obj = decipher_all(self.decipher, objid, genno, obj)
+
+                        if isinstance(obj, PDFStream):
+                            obj.set_objid(objid, genno)
+                        break
+                    except (PSEOF, PDFSyntaxError):
+                        continue
+                else:
+                    raise PDFObjectNotFound(objid)
+            finally:
+                self._objs_in_progress.discard(objid)
             log.debug("register: objid=%r: %r", objid, obj)
             if self.caching:
                 self._cached_objs[objid] = (obj, genno)
@@ -1033,8 +1044,16 @@ class PDFDocument:
         parser: PDFParser,
         start: int,
         xrefs: List[PDFBaseXRef],
+        visited: Optional[Set[int]] = None,
     ) -> None:
         """Reads XRefs from the given location."""
+        if visited is None:
+            visited = set()
+        if start in visited:
+            # /Prev or /XRefStm leads back to a section already read
+            log.warning("Circular chain of cross-reference sections at %d", start)
+            return
+        visited.add(start)
         parser.seek(start)
         parser.reset()
         try:
@@ -1058,11 +1077,11 @@ class PDFDocument:
         log.debug("trailer: %r", trailer)
         if "XRefStm" in trailer:
             pos = int_value(trailer["XRefStm"])
-            self.read_xref_from(parser, pos, xrefs)
+            self.read_xref_from(parser, pos, xrefs, visited)
         if "Prev" in trailer:
             # find previous xref
             pos = int_value(trailer["Prev"])
-            self.read_xref_from(parser, pos, xrefs)
+            self.read_xref_from(parser, pos, xrefs, visited)
 
 
 class PageLabels(NumberTree):
